@@ -120,6 +120,11 @@ def cases(tier: str, seed: int) -> list[dict]:
         ixs = [p[0] for p in inner["parts"][0]["pts"]]; iys = [p[1] for p in inner["parts"][0]["pts"]]
         cli.append({"cmd": "clip", "geomkind": "bounds", "bounds": [min(xs), min(ys), max(xs), max(ys)], "flags": ["geom-bounds", "work-dir-reused"],
                     "prior_bounds": [min(ixs) - 30, min(iys) - 30, max(ixs) + 30, max(iys) + 30], "request": "good"})
+        line = next((g for g in geoms if g["label"] == "line"), None)
+        if line is not None:
+            # a transect line, and a collection of a polygon and that line: parts without area select cells too
+            cli.append({"cmd": "clip", "geomkind": "geojson", "geom": line["parts"], "flags": ["geom-geojson", "geom-line"], "request": "good"})
+            cli.append({"cmd": "clip", "geomkind": "geojson", "geom": inner["parts"] + line["parts"], "flags": ["geom-geojson", "geom-line"], "request": "good"})
         cli.append({"cmd": "clip", "geomkind": "text", "text": "1,2,3,4,5", "flags": ["geom-bad"], "request": "bad"})
         for policy in ("error", "drop", "fill"):
             ps = [rng.choice(pts) for _ in range(4)] + [[100000, 100000]]      # the last point misses
